@@ -1536,3 +1536,31 @@ def run(idx, rep, tier):
     rep.floor('C14.R16', 'presence tests in SFTPAttrs.encode', _tests, 8)
     rep.ok('C14.R16', key(_fe, 'presence tests'),
            f'{_tests} "is (not) None" tests, no truthiness test of a number')
+    rep.rule('C14.R17', 'FXP_REALPATH (v6) control byte: validity is decided '
+             'by membership in the table of defined values - the raise of '
+             'SFTPInvalidParameter sits in the KeyError handler of a '
+             'lookup _realpath_check_names[check] (or behind "check not in '
+             '<table>") - not by a one-sided comparison, which lets the '
+             'undefined value 0 through to be executed and answered with '
+             'FXP_NAME')
+    _frp = k.func('sftp.SFTPServerHandler._process_realpath')
+    _okr = False
+    for _t in ast.walk(_frp.node):
+        if isinstance(_t, ast.Try):
+            _sub = any(isinstance(x, ast.Subscript) and
+                       dotted(x.value) == 'self._realpath_check_names' and
+                       dotted(x.slice) == 'check'
+                       for st in _t.body for x in ast.walk(st))
+            _h = any(h.type is not None and dotted(h.type) in (
+                'KeyError', 'LookupError') and any(
+                    isinstance(r, ast.Raise) and 'SFTPInvalidParameter'
+                    in unparse(r) for r in ast.walk(h)) for h in _t.handlers)
+            _okr = _okr or (_sub and _h)
+        if isinstance(_t, ast.Compare) and len(_t.ops) == 1 and isinstance(
+                _t.ops[0], ast.NotIn) and dotted(_t.left) == 'check':
+            _okr = True
+    rep.check(_okr, 'C14.R17', key(_frp, 'control byte from the defined set'),
+              'table lookup decides validity',
+              'REALPATH with control byte 0 on a v6 session is executed as '
+              'STAT_IF_EXISTS and answered FXP_NAME instead of '
+              'FX_INVALID_PARAMETER', _frp.loc(_frp.node))
